@@ -12,22 +12,26 @@
 (* DEQUANTIZE operators and it is outside the vocabulary of Pipeline.tla     *)
 (* (reachable only with skip_checks).  The model: a chain                    *)
 (*     x -> [unknown op] -> FC_1 -> .. -> FC_n -> [unknown op] -> out        *)
-(* each FC with / without bias, with / without fused RELU, block-wise or     *)
-(* float; the performer applies one instruction per block-wise weight in     *)
+(* each FC with / without bias, fused activation none / RELU / RELU6,       *)
+(* block-wise or float, activations of rank 3 or 2 (the rewrite refuses       *)
+(* RELU6 and rank 2: ValueError, nothing is returned); the performer applies one instruction per block-wise weight in     *)
 (* tensor order (one action each).  C01's clauses (GraphWF.tla) are          *)
 (* invariants of EVERY state, the intermediate ones included.                *)
 (***************************************************************************)
 EXTENDS Integers, Sequences, FiniteSets, TLC, Json
 
-CONSTANTS MaxFC,      \* FULLY_CONNECTED operators in the chain: 1..MaxFC
+CONSTANTS Acts,       \* fused activations of the FULLY_CONNECTED operators: subset of {"none", "relu", "relu6"}
+          Ranks,      \* ranks of the activations: subset of {2, 3}
+          MaxFC,      \* FULLY_CONNECTED operators in the chain: 1..MaxFC
           Bugs        \* {} = the code as it is; {"keep_fc"} = the replaced operator is not deleted (self-test of the invariants)
 
-VARIABLES cfg, g, k, pc
-vars == <<cfg, g, k, pc>>
+VARIABLES cfg, rank, g, k, pc     \* rank = number of dimensions of the activations (the rewrite handles 3 only)
+vars == <<cfg, rank, g, k, pc>>
 W == INSTANCE GraphWF
 
-Unk == [kind |-> "UNK", bias |-> FALSE, relu |-> FALSE, blk |-> FALSE]
-FCs == {[kind |-> "FC", bias |-> b, relu |-> r, blk |-> q] : b \in BOOLEAN, r \in BOOLEAN, q \in BOOLEAN}
+Unk == [kind |-> "UNK", bias |-> FALSE, relu |-> "none", blk |-> FALSE]
+\* relu: the fused activation; "relu6" stands for the ones the rewrite refuses
+FCs == {[kind |-> "FC", bias |-> b, relu |-> r, blk |-> q] : b \in BOOLEAN, r \in Acts, q \in BOOLEAN}
 Cfgs == {pre \o fcs \o post : pre \in {<<>>, <<Unk>>}, post \in {<<>>, <<Unk>>},
                               fcs \in {f \in UNION {[1..n -> FCs] : n \in 1..MaxFC} : \E i \in DOMAIN f : f[i].blk}}
 
@@ -49,7 +53,11 @@ Build(segs, i, a) ==
 Float(c) == LET a == Build(c, 1, [nt |-> 1, ops |-> <<>>, consts |-> {}, names |-> <<"x">>, prev |-> 0])
             IN [nt |-> a.nt, ops |-> a.ops, gins |-> <<0>>, gouts |-> <<a.prev>>, consts |-> a.consts, names |-> a.names, wq |-> {}]
 
-Init == cfg \in Cfgs /\ g = Float(cfg) /\ k = 1 /\ pc = "run"
+Init == cfg \in Cfgs /\ rank \in Ranks /\ g = Float(cfg) /\ k = 1 /\ pc = "run"
+
+\* the rewrite refuses (ValueError, nothing is returned): a fused activation other than NONE / RELU (checked first), activations that are not 3-D
+Refused(i) == cfg[i].relu \notin {"none", "relu"} \/ rank # 3
+Why(i) == IF cfg[i].relu \notin {"none", "relu"} THEN "fused_activation" ELSE "rank"
 
 \* ---- one EMULATED_SUBCHANNEL instruction: the operator of segment i is replaced
 Rewritten(i) ==
@@ -63,30 +71,34 @@ Rewritten(i) ==
       nb == IF s.bias THEN 1 ELSE 0
       r2out == nt + 8                    \* only with a bias
       reluin == nt + 8 + nb              \* only with a fused RELU
-      oname2 == IF s.relu THEN oname \o "_relu" ELSE oname      \* the output tensor is RENAMED when the RELU is split off
+      oname2 == IF s.relu = "relu" THEN oname \o "_relu" ELSE oname      \* the output tensor is RENAMED when the RELU is split off
       names1 == g.names \o <<wname \o "_scale", wname \o "_reduce_axes", oname \o "_reshape_op1_shape", oname \o "_reshape_op2_shape",
                               oname \o "_bmm_input", oname \o "_mul_input", oname \o "_reduce_sum_input", oname \o "_reshape_op2_input">>
                         \o (IF s.bias THEN <<oname \o "_reshape_op2_output">> ELSE <<>>)
-      names2 == [names1 EXCEPT ![out + 1] = oname2] \o (IF s.relu THEN <<oname2 \o "_relu_input">> ELSE <<>>)
-      afterR2 == IF s.bias THEN r2out ELSE IF s.relu THEN reluin ELSE out
-      afterAdd == IF s.relu THEN reluin ELSE out
+      names2 == [names1 EXCEPT ![out + 1] = oname2] \o (IF s.relu = "relu" THEN <<oname2 \o "_relu_input">> ELSE <<>>)
+      afterR2 == IF s.bias THEN r2out ELSE IF s.relu = "relu" THEN reluin ELSE out
+      afterAdd == IF s.relu = "relu" THEN reluin ELSE out
       new == <<Op("RESHAPE", <<x, r1s>>, <<bmmin>>, 0), Op("BATCH_MATMUL", <<bmmin, w>>, <<mulin>>, 0), Op("MUL", <<mulin, scale>>, <<sumin>>, 0),
                Op("SUM", <<sumin, axes>>, <<r2in>>, 0), Op("RESHAPE", <<r2in, r2s>>, <<afterR2>>, 0)>>
              \o (IF s.bias THEN <<Op("ADD", <<r2out, b>>, <<afterAdd>>, 0)>> ELSE <<>>)
-             \o (IF s.relu THEN <<Op("RELU", <<reluin>>, <<out>>, 0)>> ELSE <<>>)
+             \o (IF s.relu = "relu" THEN <<Op("RELU", <<reluin>>, <<out>>, 0)>> ELSE <<>>)
       kept == IF "keep_fc" \in Bugs THEN <<fc>> ELSE <<>>
-  IN [g EXCEPT !.nt = nt + 8 + nb + (IF s.relu THEN 1 ELSE 0),
+  IN [g EXCEPT !.nt = nt + 8 + nb + (IF s.relu = "relu" THEN 1 ELSE 0),
                !.ops = SubSeq(g.ops, 1, p - 1) \o new \o kept \o SubSeq(g.ops, p + 1, Len(g.ops)),
                !.consts = @ \cup {scale, axes, r1s, r2s}, !.names = names2, !.wq = @ \cup {w}]
 
-Step == /\ pc = "run" /\ k <= Len(cfg)
-        /\ g' = IF cfg[k].kind = "FC" /\ cfg[k].blk THEN Rewritten(k) ELSE g
-        /\ k' = k + 1 /\ UNCHANGED <<cfg, pc>>
-Finish == pc = "run" /\ k > Len(cfg) /\ pc' = "done" /\ UNCHANGED <<cfg, g, k>>
-Next == Step \/ Finish
+Blk(i) == cfg[i].kind = "FC" /\ cfg[i].blk
+Step == /\ pc = "run" /\ k <= Len(cfg) /\ ~(Blk(k) /\ Refused(k))
+        /\ g' = IF Blk(k) THEN Rewritten(k) ELSE g
+        /\ k' = k + 1 /\ UNCHANGED <<cfg, rank, pc>>
+Refuse == pc = "run" /\ k <= Len(cfg) /\ Blk(k) /\ Refused(k) /\ pc' = Why(k) /\ UNCHANGED <<cfg, rank, g, k>>
+Finish == pc = "run" /\ k > Len(cfg) /\ pc' = "done" /\ UNCHANGED <<cfg, rank, g, k>>
+Next == Step \/ Refuse \/ Finish
 Spec == Init /\ [][Next]_vars
 
 \* ---- properties
+\* a model is returned iff no selected operator is refused
+InvOutcome == pc \notin {"run"} => ((pc = "done") <=> \A i \in DOMAIN cfg : Blk(i) => ~Refused(i))
 InvWellFormed == W!WellFormed(g)                                   \* C01's clauses, in every state
 InvIO == g.gins = <<0>> /\ g.gouts = Float(cfg).gouts              \* the graph's inputs / outputs are the same tensors
 \* operators that are not replaced stay, in their order, wired to the same tensors
@@ -98,10 +110,10 @@ InvOthersKept == LET orig == Float(cfg).ops
 InvOutputRewired == \A i \in 1..(k - 1) : (cfg[i].kind = "FC" /\ cfg[i].blk) =>
                       LET out == Float(cfg).ops[i].outs[1]
                           pr == W!Producers(g, out)
-                      IN "keep_fc" \in Bugs \/ (Cardinality(pr) = 1 /\ \A q \in pr : g.ops[q].code = (IF cfg[i].relu THEN "RELU" ELSE IF cfg[i].bias THEN "ADD" ELSE "RESHAPE"))
+                      IN "keep_fc" \in Bugs \/ (Cardinality(pr) = 1 /\ \A q \in pr : g.ops[q].code = (IF cfg[i].relu = "relu" THEN "RELU" ELSE IF cfg[i].bias THEN "ADD" ELSE "RESHAPE"))
 InvCount == pc = "done" => Len(g.ops) = Len(cfg) + LET B == {i \in DOMAIN cfg : cfg[i].kind = "FC" /\ cfg[i].blk} IN
-                              4 * Cardinality(B) + Cardinality({i \in B : cfg[i].bias}) + Cardinality({i \in B : cfg[i].relu})
+                              4 * Cardinality(B) + Cardinality({i \in B : cfg[i].bias}) + Cardinality({i \in B : cfg[i].relu = "relu"})
                               + (IF "keep_fc" \in Bugs THEN Cardinality(B) ELSE 0)
 
-Emit == pc = "done" => PrintT(<<"DUMP", ToJson([cfg |-> cfg, g |-> g])>>)
+Emit == pc # "run" => PrintT(<<"DUMP", ToJson([cfg |-> cfg, rank |-> rank, pc |-> pc, g |-> g])>>)
 =============================================================================
